@@ -25,7 +25,7 @@ CHECKS = {
      'selftest_config': L(3, 0), 'selftests': ['VS_SELFTEST_1']},
     {'name': 'derive', 'src': 'harness/C18/life.cc', 'tus': ['sym_var_asgn'],
      'configs': {'quick': _derive_quick, 'thorough': _derive_thorough},
-     'selftest_config': L(2, 1, nv=3, actset=1, KF_EXCLUDE_PROJECT_LEAK=None), 'selftests': ['VS_SELFTEST_1']},
+     'selftest_config': L(2, 1, nv=3, actset=1), 'selftests': ['VS_SELFTEST_1']},
   ],
  },
 }
